@@ -66,8 +66,15 @@ const (
 var storageLists = []string{lstL1, lstL2, lstS1, lstS2, lstSS}
 
 const (
-	idL1 filter.ID = "c13_list_1"
-	idL2 filter.ID = "c13_list_2"
+	// The two rule lists have IDs that differ only in letter case (both are
+	// valid, distinct filter IDs): anything derived from an ID by a
+	// case-insensitive mapping (file names, cache names) makes them collide.
+	// "C13_List" sorts before "c13_list", so list 1 is first in the index.
+	idL1 filter.ID = "C13_List"
+	idL2 filter.ID = "c13_list"
+
+	// idExtra is the id of the third index entry of kExtra; it sorts first.
+	idExtra = "A13_Extra_List"
 
 	idS1 filter.BlockedServiceID = "c13_svc_1"
 	idS2 filter.BlockedServiceID = "c13_svc_2"
@@ -151,7 +158,7 @@ const (
 	kSwap      = "swap"
 	swapPrefix = "swap+"
 
-	// kExtra is a valid index with a third entry (id c13_list_0, sorts first)
+	// kExtra is a valid index with a third entry (id idExtra, sorts first)
 	// whose download answers 404; the round after it the entry is gone again.
 	kExtra = "extra"
 
@@ -434,7 +441,7 @@ func indexJSON(v int, kind string) (body string) {
 	case kDupID:
 		ents = append(ents, map[string]any{"downloadUrl": "http://l2" + domain + "/dup", "filterKey": string(idL2)})
 	case kExtra:
-		ents = append(ents, map[string]any{"downloadUrl": "http://l0" + domain + "/data", "filterKey": "c13_list_0"})
+		ents = append(ents, map[string]any{"downloadUrl": "http://l0" + domain + "/data", "filterKey": idExtra})
 	}
 	data, err := json.Marshal(map[string]any{"c13IndexVersion": v, "filters": ents})
 	if err != nil {
